@@ -513,7 +513,7 @@ func runHistCtx(h *HistCtx) (out []byte, panicked bool) {
 	panic("HARNESS: unknown context " + h.Ctx)
 }
 
-var histContexts = []string{"SB", "SBBytes", "MB", "Sprintfn", "SafeFormat", "SafeFormat", "UnderUnsafe", "UnderSafe", "InSlice", "InStruct", "PrintSB", "EscapeBytes"}
+var histContexts = []string{"SB", "SBHeld", "SBBytes", "MB", "Sprintfn", "SafeFormat", "SafeFormat", "UnderUnsafe", "UnderSafe", "InSlice", "InStruct", "PrintSB", "EscapeBytes"}
 
 func checkHistWF(h *HistCtx, lineSafe bool) Result {
 	st := &specStats{}
@@ -523,6 +523,25 @@ func checkHistWF(h *HistCtx, lineSafe bool) Result {
 		res.NonTrivial = st.lfInUnsafe
 	} else {
 		res.NonTrivial = st.markerish
+	}
+	if h.Ctx == "SBHeld" {
+		// results read in the middle of the history, judged after it
+		var held []redact.RedactableString
+		if p, _ := guard(func() {
+			runOnSB(h.Ops, 0, func(i int, sb *redact.StringBuilder) error {
+				held = append(held, sb.RedactableString())
+				return nil
+			})
+		}); p {
+			res.Classes = append(res.Classes, "panicked")
+		}
+		for i, r := range held {
+			if err := judgeOutput([]byte(r), lineSafe); err != nil {
+				res.Err = fmt.Errorf("history on a StringBuilder, RedactableString() read after op %d and looked at after op %d: %v", i, len(h.Ops)-1, err)
+				return res
+			}
+		}
+		return res
 	}
 	out, panicked := runHistCtx(h)
 	if panicked {
